@@ -349,5 +349,15 @@ Definition diagnose (c : case) : N :=
       (if limit_reached mm rep || complete_b p d rs rep then 0 else 8) +
       (if count_ok mm rep then 0 else 16)
   | MLPanicCase _ => 33
+  (* stream (d): 64 the dumped sub-patterns are not the ones compile_text / the hex model
+     expects, 128 atoms_ok is false on the real atoms, 256 the pipeline model run on the
+     real sub-patterns and atoms does not reproduce the reported list *)
+  | PipeCase p sps atoms anchored d rep =>
+      let rs := ref_scan p d in
+      (if sound_b p d rs rep then 0 else 2) + (if ascending_b (map t_start rep) then 0 else 4) +
+      (if anchored || complete_b p d rs rep then 0 else 8) +
+      (match expected_sps p with Some e => if list_eqb sp_eqb sps e then 0 else 64 | None => 0 end) +
+      (if all_atoms_ok p sps atoms then 0 else 128) +
+      (if pipe_check p sps atoms d rep then 0 else 256)
   | _ => 32
   end.
